@@ -439,6 +439,9 @@ def run(ctx):
     # ------------------------------------------------------------------ programs
     n_core = 12000 if thorough else 320
     n_wild = 8000 if thorough else 190
+    # volume knobs for a targeted re-run of the generators (never set by a registered command)
+    n_core = int(os.environ.get("C13_N_CORE", n_core))
+    n_wild = int(os.environ.get("C13_N_WILD", n_wild))
     # a fixed share of the budget goes to the sharp dimensions (gen/storegen.py focus=True): expression
     # SHAPES (model-compared) and locals / parameters / results of EVERY type (oracle)
     g = G.StoreGen(rng)
